@@ -1,6 +1,6 @@
 """C10 — segment models are inherited and sections interpolate only between neighbours."""
 from .. import facts, run
-from ..rules import asserts, segments
+from ..rules import asserts, segments, pure
 
 
 def main(tier):
@@ -16,6 +16,9 @@ def main(tier):
     asserts.input_indexed_elements(P, rep)
     rep.assumptions.append("that the section fraction is exactly 0 at a coordinate (Newton on the Bezier curve) and the JSON copy mechanics "
                            "inside rapidjson are NOT decided")
+    # the answer does not depend on what was queried before (no cache that outlives a query: a necessary condition for a
+    # statement about 'all worlds and all points', which includes a second world in the same process)
+    pure.run(P, rep, pure.query_roots(P))
     rep.explanation = ("Kind twin blocks of the segment parser and of the section defaults (identical after kind substitution, lists handed "
                        "on in order), slab/fault sibling agreement, convex-combination shape of every section interpolation with the "
                        "neighbouring section, per-section model loops, provenance and sizing of the per-section tables, guarded section "
